@@ -433,7 +433,10 @@ func runC03(p *core.Program, r *core.Report) {
 		if swapFn != nil {
 			for _, call := range callsTo(fn, swapFn) {
 				a := call.Common().Args
-				if isDataLoad(a[0]) && a[1] == idx && x.path(a[2]) == "(len(h.data)-1)" && boolGuard(fn, call.Block(), isFound, true) {
+				// swap is symmetric in its two slots
+				direct := a[1] == idx && x.path(a[2]) == "(len(h.data)-1)"
+				mirrored := a[2] == idx && x.path(a[1]) == "(len(h.data)-1)"
+				if isDataLoad(a[0]) && (direct || mirrored) && boolGuard(fn, call.Block(), isFound, true) {
 					okSwap = true
 				}
 			}
@@ -813,6 +816,39 @@ func runC03(p *core.Program, r *core.Report) {
 			}
 			_ = iv
 			c.ob("AG9", p.FuncName(fFromSlice), "inlined children agree with leftChild/rightChild", c.fpos(fFromSlice), okInl == 2, "FromSlice computes its children with different index maps than the rest of the heap")
+			// a child is compared exactly when it exists: the tests on the inlined child
+			// indices are against len(data) itself
+			{
+				xx := newPathCtx(p)
+				nb := 0
+				for _, b := range fFromSlice.Blocks {
+					iff := path.BlockIf(b)
+					if iff == nil {
+						continue
+					}
+					cd, ok := path.CondOf(iff)
+					if !ok {
+						continue
+					}
+					for _, side := range [][2]ssa.Value{{cd.X, cd.Y}, {cd.Y, cd.X}} {
+						idx, bound := side[0], side[1]
+						bo, isB := idx.(*ssa.BinOp)
+						if !isB || bo.Op != token.ADD {
+							continue
+						}
+						if _, ok := linForm(bo, iv); !ok || iv == nil {
+							continue
+						}
+						bp := xx.path(bound)
+						if !strings.Contains(bp, "len(") {
+							continue
+						}
+						nb++
+						c.ob("AG9", p.FuncName(fFromSlice), "child tested against len(data)", p.InstrPos(iff), bp == "len(data)", "a child index is compared with "+bp+" instead of len(data): the last element is never taken for a child (or a slot past the end is)")
+					}
+				}
+				c.ob("AG9", p.FuncName(fFromSlice), "child bounds tested", c.fpos(fFromSlice), nb >= 2, "expected the two tests of the child indices against len(data)")
+			}
 			// the bottom-up pass starts at (or above) the last internal node, len/2 - 1, and
 			// runs down to slot 0: otherwise an internal node is never sifted
 			{
@@ -1033,7 +1069,7 @@ func runC03(p *core.Program, r *core.Report) {
 		}
 		for _, call := range callsTo(fn, swapFn) {
 			a := call.Common().Args
-			if a[1] == iv && isAppOf(a[2], parent, iv) {
+			if (a[1] == iv && isAppOf(a[2], parent, iv)) || (a[2] == iv && isAppOf(a[1], parent, iv)) {
 				okSwap = true
 			}
 		}
